@@ -94,6 +94,11 @@ def gen_history(rng, max_commits=25):
         if k in seen_keys:
             names.remove(nm)     # same sort key (1.2 / 1.02): order unspecified
         seen_keys.add(k)
+    if rng.random() < 0.2:
+        # refs of the same remote that are neither the trunk nor release branches (their own commits are nobody's
+        # release yet, whatever they mention)
+        names += rng.sample(["origin/release-notes", "origin/releases-staging", "origin/feature/x", "origin/rel/1.0"],
+                            rng.randint(1, 2))
     heads = {}
     for nm in names:
         heads[nm] = rng.choice(ids[-(n // 2 + 1):]) if rng.random() < 0.8 else rng.choice(ids)
@@ -327,9 +332,26 @@ def with_component_case(ctx, rng, case=None):
     judge(ctx, par, case["text"], case, repos, repo_id='par')
 
 
+def long_history_case(ctx, n=1500):
+    """a trunk of n commits in a line, every third one matching, a build tag every hundred commits"""
+    commits, tags = {}, {}
+    prev = None
+    for cid in range(1, n + 1):
+        commits[cid] = mg.Commit("r", cid, [prev] if prev else [], "BUG-7 fix %d" % cid if cid % 3 else "misc %d" % cid,
+                                 1_600_000_000 + cid * 30, {})
+        prev = commits[cid]
+        if cid % 100 == 0:
+            tags["build_%d_release_1_0_success" % (cid // 100)] = cid
+    repo = mg.Repo("r", commits, {"origin/master": n, "origin/release/1.0": n - 250}, tags)
+    ctx.count("commits_of_one_long_history", n)
+    judge(ctx, repo, "BUG-7", {"kind": "long-history", "n": n})
+
+
 def run_shard(ctx):
     logging.disable(logging.CRITICAL)
     timed_out = 0
+    if ctx.shard == 0:
+        long_history_case(ctx)
     for i in range(ctx.cases):
         try:
             rng = ctx.rng(i)
@@ -393,6 +415,9 @@ def run_shard(ctx):
 
 def replay(ctx, case):
     logging.disable(logging.CRITICAL)
+    if case.get("kind") == "long-history":
+        long_history_case(ctx, case["n"])
+        return
     if case.get("kind") == "with-component":
         with_component_case(ctx, None, case)
         return
